@@ -493,6 +493,37 @@ func runC12(c *Ctx) error {
 		}
 	}
 
+	// (2b) one long-lived Upgrader serves a HISTORY of clients with different offers: what each client negotiates depends
+	// on the server's configuration and on its own offer only, never on the clients before it
+	for hi, si := range []int{n - 1, n - 2, n / 2, n/2 + 7, n - 13, 3 * n / 4} {
+		s := settings[si]
+		if !s.Enabled {
+			continue
+		}
+		up := gws.NewUpgrader(&recHandler{}, &gws.ServerOption{PermessageDeflate: s.pd()})
+		var seq []int
+		for k := 0; k < 10; k++ {
+			seq = append(seq, c.Rng.Intn(n))
+		}
+		seq = append(seq, 0, n-1, 1, n-1, n/2, n-1)
+		for k, ci := range seq {
+			cs := settings[ci]
+			sc, cc, stap, ctap, err := gwsPairWith(up, &gws.ClientOption{PermessageDeflate: cs.pd()}, &recHandler{})
+			if err != nil {
+				c.oracleFail(fmt.Sprintf("handshake %d of a history on one Upgrader failed for server %s client %s: %v", k, s, cs, err), "c12-handshake-error", map[string]any{"server": s, "client": cs})
+				continue
+			}
+			f := zeroPool(fn.pair(s, cs))
+			got := zeroPool(c12Outcome{SV: sc.VerifPD(), CL: cc.VerifPD()})
+			if got.SV != f.SV || got.CL != f.CL {
+				c.oracleFail(fmt.Sprintf("client %d of a history of clients on ONE Upgrader (server %s, client %s) negotiated server %s / client %s; the same pair on a fresh Upgrader gives server %s / client %s",
+					k, s, cs, pdStr(got.SV), pdStr(got.CL), pdStr(f.SV), pdStr(f.CL)), "c12-history-dependent", map[string]any{"server": s, "client": cs, "position": k})
+			}
+			stap.Close()
+			ctap.Close()
+			c.count(fmt.Sprintf("history %d %d %d", hi, k, ci), s.Enabled && cs.Enabled, "handshakes on a long-lived Upgrader")
+		}
+	}
 	phase("real handshakes")
 	// (3) parser robustness
 	nlists := 1500
